@@ -31,7 +31,7 @@ func (r *SplitMix) Bytes(n int) []byte {
 }
 
 // Content produces file content of a class. Classes:
-//   uniq      high-entropy bytes, every byte non-zero (so windows never match zero padding by accident)
+//   uniq      high-entropy bytes in 0x01..0x7f (never zero, disjoint from Garbage's 0x80..0xff)
 //   zero      all zero bytes
 //   periodic  period-3 pattern
 //   dupslice  slice 0 repeated at slice 2 (if long enough)
@@ -40,10 +40,13 @@ func Content(class string, seed int64, fileIdx, n, sliceSize int) []byte {
 	r := NewRand(uint64(seed)*0x1000193 + uint64(fileIdx)*0x9e3779b1 + 7)
 	switch class {
 	case "uniq", "":
+		// bytes in 0x01..0x7f; Garbage uses 0x80..0xff, so inserted or
+		// overwritten bytes can never complete an original slice by accident
 		b := r.Bytes(n)
 		for i := range b {
+			b[i] &= 0x7f
 			if b[i] == 0 {
-				b[i] = byte(1 + (i*7+fileIdx)%250)
+				b[i] = byte(1 + (i*7+fileIdx)%120)
 			}
 		}
 		return b
@@ -81,9 +84,7 @@ func Garbage(seed int64, tag, n int) []byte {
 	r := NewRand(uint64(seed)*0x51ed27 + uint64(tag)*0x2545f491 + 0xabcdef)
 	b := r.Bytes(n)
 	for i := range b {
-		if b[i] == 0 {
-			b[i] = 0xfe
-		}
+		b[i] |= 0x80
 	}
 	return b
 }
